@@ -6,9 +6,9 @@ From Coq Require Import List ZArith Arith.
 From Circ Require Import Lib.Obs Model.DispatchOrder.
 Import ListNotations.
 
-(* one log entry = one integer: tag + 8 * (a + 1024 * (b + 1024 * c)); keeps the literals of the
+(* one log entry = one integer: tag + 16 * (a + 1024 * (b + 1024 * c)); keeps the literals of the
    correspondence file small (ids, handler ids, names, depths and key + 1000 are all < 1024) *)
-Definition pack (tag : Z) (a b c : Z) : T := Tn (tag + 8 * (a + 1024 * (b + 1024 * c)))%Z.
+Definition pack (tag : Z) (a b c : Z) : T := Tn (tag + 16 * (a + 1024 * (b + 1024 * c)))%Z.
 Definition zn (n : nat) : Z := Z.of_nat n.
 
 Definition enc_tr (e : tr Z) : list T :=
@@ -18,6 +18,7 @@ Definition enc_tr (e : tr Z) : list T :=
   | TStop e h => [pack 2 (zn e) (zn h) 0]
   | TFlushB => [pack 4 0 0 0]
   | TDisp x => [pack 6 (zn (ictr x)) 0 0]
+  | TGen e h => [pack 9 (zn e) (zn h) 0]
   (* handler return / flush return are implied by the depth field of the following TInv entries and by
      the position of the other entries; they are left out to keep the compared literals small *)
   | TRet _ _ | TFlushE | TSnap | TDone _ => []
@@ -30,6 +31,7 @@ Definition mkh (h : nat) (p : Z) (b : list (act Z)) : handlerZ := Build_handler 
 Definition F (n k : Z) : act Z := AFire (Z.to_nat n) k.
 Definition X : act Z := AFlush.
 Definition P : act Z := AStop.
+Definition G : act Z := AGen.
 Definition H (h : Z) (p : Z) (b : list (act Z)) : handlerZ := Build_handler (Z.to_nat h) p b.
 Definition R (n : Z) (l : list handlerZ) : nat * list handlerZ := (Z.to_nat n, l).
 
